@@ -15,6 +15,7 @@ mod c09;
 mod circuits;
 mod c05;
 mod c10;
+mod c11;
 mod c12;
 mod recxof;
 mod prio3rec;
@@ -43,6 +44,8 @@ fn main() {
         ("prio3", "record") => prio3rec::record(rest, stdin_lines()),
         ("c10", "replay") => c10::replay(stdin_lines()),
         ("c10", "big") => c10::big_verdicts(stdin_lines()),
+        ("c11", "prng") => c11::prng(stdin_lines()),
+        ("c11", "xof") => c11::xof(rest, stdin_lines()),
         ("c12", "replay") => c12::replay(rest[0].parse().unwrap(), stdin_lines()),
         (p, m) => {
             eprintln!("unknown property/mode {p} {m}");
